@@ -120,3 +120,22 @@ def defaultRtol : Rat := (4722366482869645 : Rat) / 4722366482869645213696
 def defaultAtol : Rat := (3022314549036573 : Rat) / 302231454903657293676544
 
 end Feas
+
+namespace Feas
+
+/-! ### the single-sample guard of the per-sample path -/
+
+/-- `iter_constraint_data(sample_like, labels=…)` as coded from its first statement: `as_samples` makes `nrows` rows of the
+    argument; `if sample.shape[0] != 1: raise ValueError` — before anything is yielded — otherwise the loop over the selected
+    constraints.  `iter_violations`, `violations` and `check_feasible` are built on this generator and inherit the guard. -/
+def iterConstraintDataG (nrows : Nat) (labels : Option (List Label)) (cs : List CEval) (r : Nat) : List CData × Bool :=
+  if nrows ≠ 1 then ([], true) else iterConstraintDataL labels cs r
+
+def iterViolationsG (nrows : Nat) (skip clip : Bool) (labels : Option (List Label)) (cs : List CEval) (r : Nat) : List (Label × Rat) × Bool :=
+  if nrows ≠ 1 then ([], true) else iterViolationsL skip clip labels cs r
+
+/-- `check_feasible` with the guard: `none` = `ValueError` -/
+def checkFeasibleG (nrows : Nat) (atol rtol : Rat) (cs : List CEval) (r : Nat) : Option Bool :=
+  if nrows ≠ 1 then none else some (checkFeasible atol rtol cs r)
+
+end Feas
